@@ -128,7 +128,7 @@ def _shard(a):
 
 
 def run(ctx):
-    n = ctx.n(24000, 1500000)
+    n = ctx.n(70000, 1500000)
     per = max(1, n // (2 * core.NCPU))
     jobs = []
     seeds = core.shard_seeds(ctx.seed, 'C08', 2 * core.NCPU)
